@@ -298,12 +298,13 @@ tl_has = _z3.RecFunction("tl_has", _SQ, _S, _I, _B)
 tl_type = _z3.RecFunction("tl_type", _SQ, _S, _I, _S)
 _t, _s, _i = _z3.Const("tl_t", _SQ), _z3.Const("tl_s", _S), _z3.Int("tl_i")
 _DASH = _z3.StringVal("-")
-_z3.RecAddDefinition(tl_mark, [_t, _i], _z3.If(_i <= 0, False, _z3.If(tl_mark(_t, _i - 1), False, _t[_i - 1] == _DASH)))
-_z3.RecAddDefinition(tl_pend, [_t, _s, _i], _z3.If(_i <= 0, False, _z3.If(tl_mark(_t, _i - 1), False,
+from pyvc.sorts import rec_define
+rec_define(tl_mark, [_t, _i], _z3.If(_i <= 0, False, _z3.If(tl_mark(_t, _i - 1), False, _t[_i - 1] == _DASH)))
+rec_define(tl_pend, [_t, _s, _i], _z3.If(_i <= 0, False, _z3.If(tl_mark(_t, _i - 1), False,
                      _z3.If(_t[_i - 1] == _DASH, tl_pend(_t, _s, _i - 1), _z3.Or(tl_pend(_t, _s, _i - 1), _t[_i - 1] == _s)))))
-_z3.RecAddDefinition(tl_has, [_t, _s, _i], _z3.If(_i <= 0, False, _z3.If(tl_mark(_t, _i - 1), _z3.Or(tl_has(_t, _s, _i - 1), tl_pend(_t, _s, _i - 1)),
+rec_define(tl_has, [_t, _s, _i], _z3.If(_i <= 0, False, _z3.If(tl_mark(_t, _i - 1), _z3.Or(tl_has(_t, _s, _i - 1), tl_pend(_t, _s, _i - 1)),
                                                                          tl_has(_t, _s, _i - 1))))
-_z3.RecAddDefinition(tl_type, [_t, _s, _i], _z3.If(_i <= 0, _z3.StringVal(""), _z3.If(_z3.And(tl_mark(_t, _i - 1), tl_pend(_t, _s, _i - 1)), _t[_i - 1],
+rec_define(tl_type, [_t, _s, _i], _z3.If(_i <= 0, _z3.StringVal(""), _z3.If(_z3.And(tl_mark(_t, _i - 1), tl_pend(_t, _s, _i - 1)), _t[_i - 1],
                                                                                   tl_type(_t, _s, _i - 1))))
 TL_HOOKS = {
     "tl_mark": lambda interp, st, a: _Val(tl_mark(a[0].t, a[1].t), "bool"),
